@@ -45,7 +45,7 @@ def check_case(res, rng, metric, kind):
         n = k + 3
     X, L = api.gen_dataset(rng, metric, kind, n, dim)
     Q, QL = api.gen_dataset(rng, metric, kind, int(rng.choice([1, 7, 20])), dim)
-    if sp.issparse(Q) and rng.integers(2):
+    if sp.issparse(Q):
         Q = api.unsort_csr(rng, Q.tocsr())              # CSR queries whose columns are listed out of order (matrix products, X[:, cols])
     kw = api.metric_kwds(metric, rng, dim)
     params = {"search_epsilon": float(rng.choice([0.0, 0.1, 0.3])), "tree_init": bool(rng.integers(3) > 0),
